@@ -148,6 +148,8 @@ def run(ctx):
     c08._run(ctx, "ens", "small", limit=(400 if ctx.tier == "quick" else None))
     # the observed event behind the probabilistic scores (Brier family, ignorance): the same eight events, closed ends included
     c08._run(ctx, "event", "small", limit=(400 if ctx.tier == "quick" else None))
+    # the event "the observation lies between two quantiles" (quantile coverage): each end closed as -b says (after seed C07-h)
+    c08._run(ctx, "quant", "small", limit=(400 if ctx.tier == "quick" else None))
     par.clean_workdirs()
     if ctx.tier == "thorough":
         _apalache(ctx)
